@@ -141,6 +141,7 @@ attribute [irreducible] SW
 (branch conditions, loop postconditions, the caller's `lo ≤ dest ∧ dest + dmax ≤ hi`) -/
 macro "sw_arith" : tactic => `(tactic| first
   | omega
+  | decide
   | (dsimp only at * <;> omega)
   | (simp only [Prod.mk.injEq, Sum.inr.injEq, Sum.inl.injEq, reduceCtorEq, false_and, and_false, false_or, or_false, false_implies,
        forall_const, ne_eq, not_false_eq_true, not_true_eq_false, gt_iff_lt, ge_iff_le, decide_eq_true_eq,
@@ -149,8 +150,19 @@ macro "sw_arith" : tactic => `(tactic| first
 /-- the postcondition at a `pure` leaf -/
 macro "sw_post" : tactic => `(tactic| first | trivial | sw_arith | (intros; sw_arith))
 
-/-- one step of the walk: close a leaf, or open a bind / binder / conditional / match -/
-macro "sw_step" : tactic => `(tactic| first
+/-- expose the next primitive step: monad laws, decided conditions, then case split on a conditional / match
+(BEFORE any lemma is tried: unifying a lemma about a definition that unfolds to a conditional with a conditional
+goal is how `apply` goes astray) -/
+macro "sw_pre" : tactic => `(tactic| first
+  | rw [Prog.bind_assoc']
+  | rw [Prog.pure_bind']
+  | rw [Prog.ite_bind']
+  | simp only [eq_self, ite_true, ite_false, if_true, if_false, reduceCtorEq, Bool.false_eq_true, Bool.true_eq_false,
+      decide_eq_true_eq]
+  | split)
+
+/-- close a leaf -/
+macro "sw_leaf" : tactic => `(tactic| first
   | (refine SW.pure _ ?_; sw_post)
   | (refine SW.ret _ ?_; sw_post)
   | exact SW.failS _
@@ -164,23 +176,24 @@ macro "sw_step" : tactic => `(tactic| first
   | (refine SW.zeroLoop _ _ ?_; sw_arith)
   | (refine SW.nullSlack _ _ ?_; sw_arith)
   | (refine SW.handleError _ _ _ _ ?_ ?_ ?_ <;> sw_arith)
-  | assumption
-  | rw [Prog.bind_assoc']
-  | rw [Prog.pure_bind']
-  | rw [Prog.ite_bind']
+  | assumption)
+
+/-- open a bind / binder, or discharge a side condition -/
+macro "sw_open" : tactic => `(tactic| first
   | apply SW.bind
   | intro _
-  | simp only [eq_self, ite_true, ite_false, if_true, if_false, reduceCtorEq, Bool.false_eq_true, Bool.true_eq_false,
-      decide_eq_true_eq]
-  | split
   | dsimp only
   | sw_arith)
 
-/-- `sw_walk` walks the whole program; `sw_walk using l₁, l₂` also tries the given lemmas / induction hypotheses -/
+/-- one step of the walk -/
+macro "sw_step" : tactic => `(tactic| first | sw_pre | sw_leaf | sw_open)
+
+/-- `sw_walk` walks the whole program; `sw_walk using l₁, l₂` also tries the given lemmas / induction hypotheses
+(as they are, or up to a weaker postcondition) before a leaf is tried or a bind is opened -/
 syntax "sw_walk" (" using " term,+)? : tactic
 macro_rules
   | `(tactic| sw_walk) => `(tactic| repeat sw_step)
   | `(tactic| sw_walk using $[$hs],*) =>
-    `(tactic| repeat (first $[| apply $hs]* $[| (apply SW.conseq; apply $hs)]* | sw_step))
+    `(tactic| repeat (first | sw_pre $[| apply $hs]* $[| (apply SW.conseq; apply $hs)]* | sw_leaf | sw_open))
 
 end SafeC
